@@ -42,6 +42,13 @@ try:
 except Exception:
     traceback.print_exc()
     rc = 1
+try:
+    from props import _pyoverride
+    r = _pyoverride.regenerate_pyoverride(sp, model.LEAN_DIR)
+    print('regenerated pyoverride', [(o.get('name'), o.get('ok')) for o in r])
+except Exception:
+    traceback.print_exc()
+    rc = 1
 leanproof.write_driver_all()
 leanproof.write_root()
 sys.exit(rc)
